@@ -4,11 +4,11 @@
 // return although the lower level makes progress; the goroutine dump is the
 // replay artefact.
 //
-//   l10: the persister notifies the merger with a blocking channel send while it
-//        holds the collection mutex, the ping channel is full and the merger
-//        needs the mutex (MossSync deviation PersisterNotifyBlocksUnderLock).
-//   l24: a synchronous NotifyMerger whose ping is still queued when Close() stops
-//        the merger is never answered (deviation ExitIgnoresQueuedPings).
+//	l10: the persister notifies the merger with a blocking channel send while it
+//	     holds the collection mutex, the ping channel is full and the merger
+//	     needs the mutex (MossSync deviation PersisterNotifyBlocksUnderLock).
+//	l24: a synchronous NotifyMerger whose ping is still queued when Close() stops
+//	     the merger is never answered (deviation ExitIgnoresQueuedPings).
 package main
 
 import (
